@@ -1,0 +1,53 @@
+//go:build verif
+// +build verif
+
+package auth
+
+// Contracts for the deductive verifier in /verif (comment-only file, build tag `verif`).
+
+// fp is the fingerprint as a mathematical function of the byte content (A-HASH: sha256 and
+// the %x rendering are a function of the content only; injectivity is NOT assumed).
+//@ fun fp(s string) string
+
+//@ trusted func fingerprintBytes(buf []byte) (r string)
+//@   ensures r == fp(string(buf))
+//@   pure
+//@ trusted func fingerprintString(buf string) (r string)
+//@   ensures r == fp(buf)
+//@   pure
+//@ trusted func randomID() (r string)
+//@   pure
+
+//@ pred db_sorted(h *fileHandler) := forall i int, j int :: {h.db[i], h.db[j]} 0 <= i && i < j && j < len(h.db) ==>
+//@        strcmp(h.db[i].UsernameHash, h.db[j].UsernameHash) <= 0
+//@ pred db_match(h *fileHandler, i int, u []byte, p []byte) := 0 <= i && i < len(h.db)
+//@        && h.db[i].UsernameHash == fp(string(u)) && h.db[i].PasswordHash == fp(string(p))
+
+// C16: accepted exactly when SOME row matches, and then placed in the mount point of a matching row.
+//@ func (*fileHandler).Authenticate(ctx context.Context, mqtt ApplicationContext, transport TransportContext) (p Principal, err error)
+//@   requires h != nil && db_sorted(h)
+//@   ensures err == nil <==> (exists i int :: {h.db[i]} db_match(h, i, mqtt.Username, mqtt.Password))
+//@   ensures err == nil ==> (exists i int :: {h.db[i]} db_match(h, i, mqtt.Username, mqtt.Password) && p.MountPoint == h.db[i].MountPoint)
+//@   modifies nothing
+
+//@ func (*staticHandler).Authenticate(ctx context.Context, mqtt ApplicationContext, transport TransportContext) (p Principal, err error)
+//@   requires h != nil
+//@   ensures err == nil <==> (h.usernameHash == fp(string(mqtt.Username)) && h.passwordHash == fp(string(mqtt.Password)))
+//@   ensures err == nil ==> p.MountPoint == "_default"
+//@   modifies nothing
+
+//@ func StaticHandler(username string, password string) (a AuthenticationHandler, err error)
+//@   ensures err == nil && typeis(a, *staticHandler)
+//@   ensures unbox(a, *staticHandler).usernameHash == fp(username) && unbox(a, *staticHandler).passwordHash == fp(password)
+
+//@ loop (*fileHandler).Authenticate#1
+//@   invariant 0 <= idx && idx <= len(h.db)
+//@   invariant forall k int :: {h.db[k]} 0 <= k && k < idx ==> !db_match(h, k, mqtt.Username, mqtt.Password)
+//@   invariant forall k int :: {h.db[k]} idx <= k && k < len(h.db) ==> strcmp(h.db[k].UsernameHash, usernameHash) >= 0
+
+// FileHandler: whatever the file contains, loading it cannot panic, and the table it returns is sorted
+// (the precondition of Authenticate). Which rows end up in the table is not specified here.
+//@ func FileHandler(path string) (a AuthenticationHandler, err error)
+//@   ensures err == nil ==> typeis(a, *fileHandler) && unbox(a, *fileHandler) != nil && db_sorted(unbox(a, *fileHandler))
+//@ loop FileHandler#1
+//@   invariant -1 <= rangeindex && rangeindex < len(records)
